@@ -282,3 +282,80 @@ Example C06_example_items :
   option_map (fun p => (to_list 2 (fst p), snd p)) (bandpass_pipe_items fs 2 4 toy_dec 2 1 3) = Some ([3 + 5 + 263; 4 + 6 + 8], 3) /\
   option_map (to_list 2) (dedisperse_pipe_items fs 2 4 toy_dec 1 1 3 1 (of_list [0; 1])) = Some [3 + 6; 5 + 8].
 Proof. vm_compute. repeat split; reflexivity. Qed.
+
+(** ---- statistics at the packed depths / for item-wide samples, pointwise: the accumulator of channel c satisfies the C10 invariant
+    (count, mean and central sums in closed form, min, max) of the list of the selected samples of that channel themselves ---- *)
+Theorem C06_stats_packed_pointwise : forall fs nch nbits big N gulp start nsamps junk c full,
+  In nbits [1; 2; 4] -> (nch * nbits) mod 8 = 0 -> 1 <= nch ->
+  1 <= nfiles fs -> total fs = N * samp_bytes nch nbits -> Forall is_byte (flat fs) ->
+  0 <= start -> 1 <= nsamps -> start + nsamps <= N -> 1 <= gulp -> 0 <= c < nch -> nsamps < 2 ^ 31 ->
+  exists s, stats_pipe_packed fs nch nbits big gulp start nsamps full c junk = Some s /\
+    inv full (map (fun t => QArith_base.inject_Z (packed_sample fs nbits big ((start + t) * nch + c))) (zrange nsamps)) s /\
+    inv_minmax (map (fun t => QArith_base.inject_Z (packed_sample fs nbits big ((start + t) * nch + c))) (zrange nsamps)) s.
+Proof. exact stats_pointwise_packed. Qed.
+Print Assumptions C06_stats_packed_pointwise.
+
+Theorem C06_stats_items_pointwise : forall fs nch w dec N gulp start nsamps c full,
+  1 <= w -> 1 <= nch -> 1 <= nfiles fs -> total fs = N * (nch * w) ->
+  0 <= start -> 1 <= nsamps -> start + nsamps <= N -> 1 <= gulp -> 0 <= c < nch -> nsamps < 2 ^ 31 ->
+  exists s, stats_pipe_items fs nch w dec gulp start nsamps full c = Some s /\
+    inv full (map (fun t => QArith_base.inject_Z (item_sample fs w dec ((start + t) * nch + c))) (zrange nsamps)) s /\
+    inv_minmax (map (fun t => QArith_base.inject_Z (item_sample fs w dec ((start + t) * nch + c))) (zrange nsamps)) s.
+Proof. exact stats_pointwise_items. Qed.
+Print Assumptions C06_stats_items_pointwise.
+
+Theorem C06_gulp_irrelevant_stats_packed : forall fs nch nbits big N g1 g2 start nsamps junk1 junk2 c full,
+  In nbits [1; 2; 4] -> (nch * nbits) mod 8 = 0 -> 1 <= nch ->
+  1 <= nfiles fs -> total fs = N * samp_bytes nch nbits -> Forall is_byte (flat fs) ->
+  0 <= start -> 1 <= nsamps -> start + nsamps <= N -> 1 <= g1 -> 1 <= g2 -> 0 <= c < nch -> nsamps < 2 ^ 31 ->
+  exists s1 s2, stats_pipe_packed fs nch nbits big g1 start nsamps full c junk1 = Some s1 /\
+                stats_pipe_packed fs nch nbits big g2 start nsamps full c junk2 = Some s2 /\ st_agree full s1 s2.
+Proof. exact gulp_irrelevant_stats_packed. Qed.
+Print Assumptions C06_gulp_irrelevant_stats_packed.
+
+Theorem C06_gulp_irrelevant_stats_items : forall fs nch w dec N g1 g2 start nsamps c full,
+  1 <= w -> 1 <= nch -> 1 <= nfiles fs -> total fs = N * (nch * w) ->
+  0 <= start -> 1 <= nsamps -> start + nsamps <= N -> 1 <= g1 -> 1 <= g2 -> 0 <= c < nch -> nsamps < 2 ^ 31 ->
+  exists s1 s2, stats_pipe_items fs nch w dec g1 start nsamps full c = Some s1 /\
+                stats_pipe_items fs nch w dec g2 start nsamps full c = Some s2 /\ st_agree full s1 s2.
+Proof. exact gulp_irrelevant_stats_items. Qed.
+Print Assumptions C06_gulp_irrelevant_stats_items.
+
+(** non-vacuity: the files of C06_example_packed / C06_example_items; channel 1 of the 2-bit set over [1,5) is 1,0,3,2 (gulp 3: two
+    blocks), channel 0 of the item-wide set over [1,4) is 3,5,263 (gulp 2: a full and a partial block) *)
+Example C06_example_stats_pointwise :
+  let fp := [mkfile [7; 7] [27; 228]; mkfile [9] [0; 255; 57]] in
+  let fi := [mkfile [1] [1;0;9;9; 2;0;9;9; 3;0;9;9; 4;0;9;9]; mkfile [2; 2] [5;0;9;9; 6;0;9;9; 7;1;9;9; 8;0;9;9]] in
+  let view := fun s => (s_cnt s, Qreduction.Qred (s_m1 s), Qreduction.Qred (s_m2 s), Qreduction.Qred (s_min s), Qreduction.Qred (s_max s)) in
+  map Qreduction.Qred (packed_column fp 2 false 4 1 4 1) = map QArith_base.inject_Z [1; 0; 3; 2] /\
+  option_map view (stats_pipe_packed fp 4 2 false 3 1 4 true 1 (fun _ => -9)) = Some (4, QArith_base.Qmake 3 2, QArith_base.Qmake 5 1, QArith_base.Qmake 0 1, QArith_base.Qmake 3 1) /\
+  option_map view (stats_pipe_packed fp 4 2 false 1 1 4 true 1 (fun _ => -9)) = Some (4, QArith_base.Qmake 3 2, QArith_base.Qmake 5 1, QArith_base.Qmake 0 1, QArith_base.Qmake 3 1) /\
+  map Qreduction.Qred (item_column fi 4 toy_dec 2 1 3 0) = map QArith_base.inject_Z [3; 5; 263] /\
+  option_map (fun s => (s_cnt s, Qreduction.Qred (s_m1 s), Qreduction.Qred (s_min s), Qreduction.Qred (s_max s))) (stats_pipe_items fi 2 4 toy_dec 2 1 3 false 0)
+    = Some (3, QArith_base.Qmake 271 3, QArith_base.Qmake 3 1, QArith_base.Qmake 263 1).
+Proof. vm_compute. repeat split; reflexivity. Qed.
+
+(** ---- delays of either sign (ascending band, negative DM): [raw] are the law delays (C09), [mn] a lower bound of them over the band
+    (the code uses their minimum); the vector handed to the kernel is Gen.BaseSites.dedisperse_norm, regenerated from
+    Filterbank.dedisperse.  No sign hypothesis on [raw]: if the source stops referring the delays to the earliest channel this
+    theorem no longer builds. ---- *)
+Theorem C06_dedisperse_anysign : forall fs nch N gulp start nsamps md raw mn,
+  1 <= nfiles fs -> 1 <= nch -> total fs = N * nch -> 0 <= start -> 1 <= nsamps -> start + nsamps <= N -> 1 <= gulp ->
+  (forall c, 0 <= c < nch -> mn <= raw c) ->
+  (forall c, 0 <= c < nch -> dedisperse_norm mn (raw c) <= md) -> 0 <= md < nsamps ->
+  exists out, dedisperse_pipe fs nch gulp start nsamps md (fun c => dedisperse_norm mn (raw c)) = Some out /\
+    forall t, 0 <= t < nsamps - md -> out t = dedisp fs nch start (fun c => dedisperse_norm mn (raw c)) t.
+Proof. exact dedisperse_spec_anysign. Qed.
+Print Assumptions C06_dedisperse_anysign.
+
+Theorem C06_read_chan_len : forall N start nsamps, read_chan_len N start nsamps 0 = nsamps /\ read_chan_len N start nsamps 1 = N - start.
+Proof. exact read_chan_len_spec. Qed.
+Print Assumptions C06_read_chan_len.
+
+(** non-vacuity: the files of C06_example, ascending-band law delays (0,-2): referred to the earliest channel they are (2,0) *)
+Example C06_example_anysign :
+  let fs := [mkfile [224] [1; 2; 3; 4]; mkfile [225] [5; 6; 7; 8; 9; 10; 11; 12]] in
+  let raw := of_list [0; -2] in
+  Forall (fun c => -2 <= raw c) [0; 1] /\ map (fun c => dedisperse_norm (-2) (raw c)) [0; 1] = [2; 0] /\
+  option_map (to_list 3) (dedisperse_pipe fs 2 2 1 5 2 (fun c => dedisperse_norm (-2) (raw c))) = Some [7 + 4; 9 + 6; 11 + 8].
+Proof. split; [repeat constructor; vm_compute; discriminate|]. vm_compute. split; reflexivity. Qed.
